@@ -37,6 +37,8 @@ def run(chk, tier, seed):
         for k, inp in enumerate(inputs):
             dd = d if k % 3 else ("ARM" if d == "6502" else "Windows")
             cases.append(("tlc-%d" % k, dd, k % 8, bytes(inp)))
+    # liveness: under fairness the reader model always reaches "ok" or "fail" (no byte string makes it loop)
+    bc.model_check(chk, ["Basic_be_live.cfg", "Basic_le_live.cfg"])
     cases += list(bc.gen_hostile(rnd, quick))
     with common.Scratch("c08") as scratch:
         def do(ic):
